@@ -247,6 +247,18 @@ class C19(Check):
         vproc.install_patches()
         self.dflt, self.version = sg.defaults()
         self.keys = sorted(self.dflt)
+        # discovery pass (a fixed, tiny workload): the environment variables
+        # evo's own code looks at while starting, editing and resetting -
+        # their names are then part of the generated configuration space
+        vproc.ENV_NAMES_SEEN.clear()
+        sim = vproc.Sim(seed=0)
+        sim.run([[{"cmd": "start"},
+                  {"cmd": "config", "argv": ["set", "--no_color",
+                                             "plot_split"]},
+                  {"cmd": "config", "argv": ["show", "--brief",
+                                             "--no_color"]},
+                  {"cmd": "config", "argv": ["reset", "-y", "--no_color"]}]])
+        self.env_names = sorted(vproc.ENV_NAMES_SEEN - {"HOME"})
         import gc
         gc.collect()
         gc.freeze()
@@ -315,6 +327,34 @@ class C19(Check):
                               "n": rng.randint(1, 2)}},
                 ]
             epochs.append({"lanes": lanes, "faults": faults})
+        if rng.random() < 0.12:
+            # the first epoch is run by an older release of evo (its version
+            # string, without some of today's parameters); later epochs and
+            # the final start are today's release
+            stored = init.get("files", {}).get(VERSION_PATH)
+            release = {"version": rng.choice(
+                [v for v in sg.OLD_VERSIONS if v != stored]),
+                       "without": rng.sample(
+                           [k for k in keys if k not in (
+                               "pygments_style", "console_logging_format",
+                               "global_logfile_enabled")],
+                           rng.randint(1, 3))}
+            for lane in epochs[0]["lanes"]:
+                for cmd in lane:
+                    if cmd.get("cmd") in ("start", "config"):
+                        cmd["release"] = release
+        # environment variables evo's own code was seen to look at
+        names = self.env_names
+        if names and rng.random() < 0.25:
+            for e in epochs:
+                for lane in e["lanes"]:
+                    for cmd in lane:
+                        if cmd.get("cmd") in ("start", "config") and (
+                                rng.random() < 0.4):
+                            n = rng.choice(names)
+                            cmd["env"] = {n: ":0" if n == "DISPLAY" else
+                                          rng.choice(["1", "paper", "x", "0",
+                                                      "test"])}
         pol = rng.choice([("random", ), ("sticky", 0.05), ("sticky", 0.2),
                           ("sticky", 0.5), ("pct", 1, 40), ("pct", 2, 40),
                           ("pct", 3, 60), ("burst", 0.5), ("burst", 1.0)])
@@ -408,7 +448,11 @@ class C19(Check):
                         break
                     st = res.get("settings")
                     if st is not None:
-                        missing = [k for k in dflt if k not in st]
+                        not_yet = set((vp.program[ci].get("release") or {}
+                                       ).get("without", ())) if ci < len(
+                                           vp.program) else set()
+                        missing = [k for k in dflt
+                                   if k not in st and k not in not_yet]
                         if missing:
                             violation = {
                                 "class": "I3",
@@ -593,6 +637,12 @@ class C19(Check):
         for name in ("empty", "dir_only", "dir_version"):
             w.append(("first_init:" + name, inits[name], [{"cmd": "start"}]))
         w.append(("upgrade", outdated, [{"cmd": "start"}]))
+        # the same upgrade performed by an OLDER release (which does not know
+        # two of the parameters yet); the start afterwards is today's
+        w.append(("upgrade_by_older_release", outdated, [
+            {"cmd": "start", "release": {
+                "version": "v1.30.0",
+                "without": ["plot_usetex", "table_export_format"]}}]))
         for name in ("current", "outdated"):
             i = inits[name]
             w.append(("reset_all:" + name, i,
